@@ -109,6 +109,9 @@ CLAIMED = {
     "C39": ("EVALGATE (CMA-ES: resample-into-limits on every path between sampling and evaluation; both limit tests per coordinate; start point tested), PAIR (returned objective belongs to the returned parameters; wrappers evaluate at the array and into the location they were given), STATUS (normal return only after the backend reported convergence), LIMITS (system limits handed to L-BFGS-B / IPOPT in order, bound-code table, constraint rows and tolerance options), SELECT (BestAvailable guards) on the optimizer drivers",
             "Static decision of the driver clauses of C39 (DESIGN section 3): the CMA-ES driver evaluates the objective only at points that passed both limit tests on every coordinate; every driver returns the objective value that belongs to the parameters it returns; L-BFGS-B and IPOPT drivers return normally only when the backend reported convergence and hand the backend the system's own limits, bound codes, constraint rows and tolerances; the default algorithm choice never constructs a driver that ignores limits or constraints the problem has. "
             "Optimality, descent, feasibility of IPOPT / L-BFGS-B iterates and CMA-ES reproducibility are produced inside the vendored solvers and are NOT decided."),
+    "C40": ("QUOTIENT (the stored estimate normalised to a linear form sum c_k F(y + k h e_i) over the function values actually obtained; consistency conditions sum c_k = 0, sum c_k k h = 1 and, off the order-1 path, sum c_k k^2 = 0), PERTURB (one coordinate at a time with restore on every path, every parameter, slot i), STEP (step from the displaced coordinate and from the accuracy factor of the path's order; order / factor tables), BASE (the nine shape adapters' unperturbed value belongs to the point) on Differentiator.cpp",
+            "Static decision of the difference-scheme clauses of C40 (DESIGN section 3): for every function, dimension and point, each estimate the Differentiator stores is a finite-difference combination of function values taken with exactly one coordinate displaced by +-h, whose coefficients make it exact for affine functions (and, for the central method, for quadratics); the coordinate is restored before the next one is displaced; the step and the accuracy factor belong to the coordinate and to the order used; the base value belongs to the evaluation point. "
+            "The size of the truncation and rounding error for a given smooth function -- the bound itself -- is numerical analysis and is NOT decided."),
 }
 NA = {
  "C03": "derivative relation between numeric routines; needs symbolic differentiation (other family)",
@@ -125,7 +128,6 @@ NA = {
  "C34": "numerical geometry with iterative solvers",
  "C36": "containment and query equality are numerical/geometric",
  "C37": "constitutive formulas, clamps and friction limits are numerical",
- "C40": "error bounds are numerical analysis",
  "C41": "derivative/value consistency of formulas is numerical/symbolic",
  "C42": "graph-algorithm post-condition over all input graphs needs a proof of the algorithm, not a shape rule",
  "C45": "lengths, rates and power are numerical; frame lint alone is too little of the property",
